@@ -15,7 +15,13 @@ the differential check (gvlib/c11.py), which is also where the two open findings
   used before fix is NOT (`sequential_is_wrong`, the `a, b = b, a` witness) and is right only without interference
   (`sequential_ok_partial`);
 * inserting a do-nothing block on an edge (junk jump; trash dispatch with its always-false condition) changes no
-  execution between original blocks, in either direction: `insertEdge_forward`, `insertEdge_backward`.
+  execution between original blocks, in either direction: `insertEdge_forward`, `insertEdge_backward`;
+* **one flattening pass** over an abstract CFG (any blocks, any state, any set of redirected edges, any distinct
+  non-zero keys): the dispatcher built as control flow (jump blocks, entry, if-chain) routes every redirected edge to
+  its target and the initial 0 to the real entry (`dispatcher_routes`, `dispatcher_entry`), hence every execution of
+  the original function is an execution of the flattened one with the same function state (`flatten_forward`) and
+  every result it returns is returned (`flatten_returns`).  The real `applyFlattening` is checked on every run to
+  produce exactly this structure (gvlib/c11.py `flatten_structure`).
 -/
 set_option linter.unusedSimpArgs false
 namespace GV.Props.C11
@@ -370,5 +376,300 @@ example : ∃ t, Steps (insertEdge (σ := Nat) ⟨fun n s => if n = 0 then s + 1
     (by intro m u; simp only []; split <;> (try split) <;> simp) (by decide)
   apply fwd
   exact .step (m := 0) (by decide) (.step (m := 0) (by decide) (.step (m := 1) (by decide) (.refl _ _)))
+
+
+
+/-! ### the dispatcher as control flow
+
+`applyFlattening` builds: for every redirected edge `i` a jump block `F i` whose phi edge stores `keys[i]` in the
+dispatcher variable, the dispatcher entry `D`, and a chain of blocks `C i` (`if v == keys[i] goto target i else goto C (i+1)`,
+the last one falling through to the real entry block).  Nodes: `D = base`, `C i = base + 1 + i`, `F i = base + 1 + n + i`.
+The state is the function's own state paired with the dispatcher variable. -/
+
+structure Dispatcher where
+  base : Nat
+  keys : List Nat
+  targets : List Nat
+  realEntry : Nat
+
+def Dispatcher.n (d : Dispatcher) : Nat := d.keys.length
+def Dispatcher.D (d : Dispatcher) : Nat := d.base
+def Dispatcher.C (d : Dispatcher) (i : Nat) : Nat := d.base + 1 + i
+def Dispatcher.F (d : Dispatcher) (i : Nat) : Nat := d.base + 1 + d.n + i
+
+/-- the dispatcher blocks as a program over (σ × dispatcher variable); `orig` gives the behaviour of every other node -/
+def Dispatcher.prog {σ : Type} (d : Dispatcher) (orig : Prog (σ × Nat)) : Prog (σ × Nat) where
+  exec k s :=
+    if d.F 0 ≤ k ∧ k < d.F d.n then (s.1, d.keys.getD (k - d.F 0) 0)       -- jump block: the phi edge stores the key
+    else if d.D ≤ k ∧ k < d.F 0 then s                                     -- entry and chain blocks compute nothing
+    else orig.exec k s
+  next k s :=
+    if d.F 0 ≤ k ∧ k < d.F d.n then some d.D
+    else if k = d.D then some (if d.n = 0 then d.realEntry else d.C 0)
+    else if d.C 0 ≤ k ∧ k < d.C d.n then
+      let i := k - d.C 0
+      if s.2 = d.keys.getD i 0 then some (d.targets.getD i 0)
+      else if i + 1 < d.n then some (d.C (i + 1)) else some d.realEntry
+    else orig.next k s
+
+variable {σ : Type}
+
+/-- from chain block `C j` with the dispatcher variable holding `keys[i]`, `j ≤ i`: control reaches target `i` without
+touching the function's state -/
+theorem chain_reaches (d : Dispatcher) (orig : Prog (σ × Nat)) (nd : d.keys.Nodup) (i : Nat) (hi : i < d.n) (s : σ) :
+    ∀ (m j : Nat), j + m = i → Steps (d.prog orig) (d.C j) (s, d.keys.getD i 0) (d.targets.getD i 0) (s, d.keys.getD i 0) := by
+  intro m
+  induction m with
+  | zero =>
+    intro j hj
+    have hji : j = i := by omega
+    subst hji
+    have hC : d.C 0 ≤ d.C j ∧ d.C j < d.C d.n := by unfold Dispatcher.C; omega
+    have hnF : ¬ (d.F 0 ≤ d.C j ∧ d.C j < d.F d.n) := by unfold Dispatcher.F Dispatcher.C; omega
+    have hnD : d.C j ≠ d.D := by unfold Dispatcher.C Dispatcher.D; omega
+    have hD2 : d.D ≤ d.C j ∧ d.C j < d.F 0 := by unfold Dispatcher.C Dispatcher.D Dispatcher.F; omega
+    have hsub : d.C j - d.C 0 = j := by unfold Dispatcher.C; omega
+    have ex : (d.prog orig).exec (d.C j) (s, d.keys.getD j 0) = (s, d.keys.getD j 0) := by
+      simp [Dispatcher.prog, hnF, hD2]
+    refine .step (m := d.targets.getD j 0) ?_ ?_
+    · rw [ex]; simp [Dispatcher.prog, hnF, hnD, hC, hsub]
+    · rw [ex]; exact .refl _ _
+  | succ m ih =>
+    intro j hj
+    have hjn : j < d.n := by omega
+    have hC : d.C 0 ≤ d.C j ∧ d.C j < d.C d.n := by unfold Dispatcher.C; omega
+    have hnF : ¬ (d.F 0 ≤ d.C j ∧ d.C j < d.F d.n) := by unfold Dispatcher.F Dispatcher.C; omega
+    have hnD : d.C j ≠ d.D := by unfold Dispatcher.C Dispatcher.D; omega
+    have hD2 : d.D ≤ d.C j ∧ d.C j < d.F 0 := by unfold Dispatcher.C Dispatcher.D Dispatcher.F; omega
+    have hsub : d.C j - d.C 0 = j := by unfold Dispatcher.C; omega
+    have ex : (d.prog orig).exec (d.C j) (s, d.keys.getD i 0) = (s, d.keys.getD i 0) := by
+      simp [Dispatcher.prog, hnF, hD2]
+    have hne : d.keys.getD i 0 ≠ d.keys.getD j 0 := by
+      unfold Dispatcher.n at hi hjn
+      simp only [List.getD_eq_getElem?_getD, List.getElem?_eq_getElem hi, List.getElem?_eq_getElem hjn, Option.getD_some]
+      intro e
+      have := (List.getElem_inj nd).mp e
+      omega
+    have hlt : j + 1 < d.n := by omega
+    have hne' : ¬ d.keys[i]?.getD 0 = d.keys[j]?.getD 0 := by simpa [List.getD_eq_getElem?_getD] using hne
+    refine .step (m := d.C (j + 1)) ?_ ?_
+    · rw [ex]; simp [Dispatcher.prog, hnF, hnD, hC, hsub, hne', hlt]
+    · rw [ex]; exact ih (j + 1) (by omega)
+
+/-- **a redirected edge still arrives**: from the jump block of edge `i`, through the dispatcher, control reaches the
+block the edge pointed to, with the function's own state untouched -/
+theorem dispatcher_routes (d : Dispatcher) (orig : Prog (σ × Nat)) (nd : d.keys.Nodup) (i : Nat) (hi : i < d.n) (s : σ) (v : Nat) :
+    Steps (d.prog orig) (d.F i) (s, v) (d.targets.getD i 0) (s, d.keys.getD i 0) := by
+  have hF : d.F 0 ≤ d.F i ∧ d.F i < d.F d.n := by unfold Dispatcher.F; omega
+  have hsub : d.F i - d.F 0 = i := by unfold Dispatcher.F; omega
+  have ex : (d.prog orig).exec (d.F i) (s, v) = (s, d.keys.getD i 0) := by simp [Dispatcher.prog, hF, hsub]
+  refine .step (m := d.D) ?_ ?_
+  · rw [ex]; simp [Dispatcher.prog, hF]
+  · rw [ex]
+    have hnF : ¬ (d.F 0 ≤ d.D ∧ d.D < d.F d.n) := by unfold Dispatcher.F Dispatcher.D; omega
+    have hD2 : d.D ≤ d.D ∧ d.D < d.F 0 := by unfold Dispatcher.D Dispatcher.F; omega
+    have exD : (d.prog orig).exec d.D (s, d.keys.getD i 0) = (s, d.keys.getD i 0) := by simp [Dispatcher.prog, hnF, hD2]
+    have hn0 : d.n ≠ 0 := by omega
+    refine .step (m := d.C 0) ?_ ?_
+    · rw [exD]; simp [Dispatcher.prog, hnF, hn0]
+    · rw [exD]; exact chain_reaches d orig nd i hi s i 0 (by omega)
+
+/-- **function entry**: the dispatcher variable starts as 0, no key is 0, so the chain falls through to the real entry -/
+theorem chain_falls_through (d : Dispatcher) (orig : Prog (σ × Nat)) (h0 : 0 ∉ d.keys) (s : σ) :
+    ∀ (m j : Nat), j + m + 1 = d.n → Steps (d.prog orig) (d.C j) (s, 0) d.realEntry (s, 0) := by
+  intro m
+  induction m with
+  | zero =>
+    intro j hj
+    have hjn : j < d.n := by omega
+    have hC : d.C 0 ≤ d.C j ∧ d.C j < d.C d.n := by unfold Dispatcher.C; omega
+    have hnF : ¬ (d.F 0 ≤ d.C j ∧ d.C j < d.F d.n) := by unfold Dispatcher.F Dispatcher.C; omega
+    have hnD : d.C j ≠ d.D := by unfold Dispatcher.C Dispatcher.D; omega
+    have hD2 : d.D ≤ d.C j ∧ d.C j < d.F 0 := by unfold Dispatcher.C Dispatcher.D Dispatcher.F; omega
+    have hsub : d.C j - d.C 0 = j := by unfold Dispatcher.C; omega
+    have ex : (d.prog orig).exec (d.C j) (s, 0) = (s, 0) := by simp [Dispatcher.prog, hnF, hD2]
+    have hne : (0 : Nat) ≠ d.keys.getD j 0 := by
+      unfold Dispatcher.n at hjn
+      simp only [List.getD_eq_getElem?_getD, List.getElem?_eq_getElem hjn, Option.getD_some]
+      intro e; exact h0 (e ▸ List.getElem_mem hjn)
+    have hlast : ¬ (j + 1 < d.n) := by omega
+    have hne' : ¬ 0 = d.keys[j]?.getD 0 := by simpa [List.getD_eq_getElem?_getD] using hne
+    refine .step (m := d.realEntry) ?_ ?_
+    · rw [ex]; simp [Dispatcher.prog, hnF, hnD, hC, hsub, hne', hlast]
+    · rw [ex]; exact .refl _ _
+  | succ m ih =>
+    intro j hj
+    have hjn : j < d.n := by omega
+    have hC : d.C 0 ≤ d.C j ∧ d.C j < d.C d.n := by unfold Dispatcher.C; omega
+    have hnF : ¬ (d.F 0 ≤ d.C j ∧ d.C j < d.F d.n) := by unfold Dispatcher.F Dispatcher.C; omega
+    have hnD : d.C j ≠ d.D := by unfold Dispatcher.C Dispatcher.D; omega
+    have hD2 : d.D ≤ d.C j ∧ d.C j < d.F 0 := by unfold Dispatcher.C Dispatcher.D Dispatcher.F; omega
+    have hsub : d.C j - d.C 0 = j := by unfold Dispatcher.C; omega
+    have ex : (d.prog orig).exec (d.C j) (s, 0) = (s, 0) := by simp [Dispatcher.prog, hnF, hD2]
+    have hne : (0 : Nat) ≠ d.keys.getD j 0 := by
+      unfold Dispatcher.n at hjn
+      simp only [List.getD_eq_getElem?_getD, List.getElem?_eq_getElem hjn, Option.getD_some]
+      intro e; exact h0 (e ▸ List.getElem_mem hjn)
+    have hlt : j + 1 < d.n := by omega
+    have hne' : ¬ 0 = d.keys[j]?.getD 0 := by simpa [List.getD_eq_getElem?_getD] using hne
+    refine .step (m := d.C (j + 1)) ?_ ?_
+    · rw [ex]; simp [Dispatcher.prog, hnF, hnD, hC, hsub, hne', hlt]
+    · rw [ex]; exact ih (j + 1) (by omega)
+
+theorem dispatcher_entry (d : Dispatcher) (orig : Prog (σ × Nat)) (h0 : 0 ∉ d.keys) (s : σ) :
+    Steps (d.prog orig) d.D (s, 0) d.realEntry (s, 0) := by
+  have hnF : ¬ (d.F 0 ≤ d.D ∧ d.D < d.F d.n) := by unfold Dispatcher.F Dispatcher.D; omega
+  have hD2 : d.D ≤ d.D ∧ d.D < d.F 0 := by unfold Dispatcher.D Dispatcher.F; omega
+  have exD : (d.prog orig).exec d.D (s, 0) = (s, 0) := by simp [Dispatcher.prog, hnF, hD2]
+  have hnF0 : ¬ d.F 0 ≤ d.D := by unfold Dispatcher.F Dispatcher.D; omega
+  by_cases hn : d.n = 0
+  · refine .step (m := d.realEntry) ?_ ?_
+    · rw [exD]; simp [Dispatcher.prog, hnF0, hn]
+    · rw [exD]; exact .refl _ _
+  · refine .step (m := d.C 0) ?_ ?_
+    · rw [exD]; simp [Dispatcher.prog, hnF, hn]
+    · rw [exD]; exact chain_falls_through d orig h0 s (d.n - 1) 0 (by omega)
+
+/-- with the keys `applyFlattening` assigns (a permutation plus one) both hold -/
+theorem flatten_dispatcher_ok (base realEntry : Nat) (perm targets : List Nat) (hp : perm.Nodup) (orig : Prog (σ × Nat)) (s : σ) :
+    let d : Dispatcher := { base := base, keys := flattenKeys perm, targets := targets, realEntry := realEntry }
+    Steps (d.prog orig) d.D (s, 0) realEntry (s, 0) ∧
+    ∀ i (_ : i < d.n) (v : Nat), Steps (d.prog orig) (d.F i) (s, v) (targets.getD i 0) (s, (flattenKeys perm).getD i 0) := by
+  intro d
+  have h := flatten_keys_ok perm hp
+  exact ⟨dispatcher_entry d orig h.2 s, fun i hi v => dispatcher_routes d orig h.1 i hi s v⟩
+
+
+
+
+/-- index of the redirected edge (n, m), if `applyFlattening` redirected it -/
+def edgeIdx (edges : List (Nat × Nat)) (n m : Nat) : Option Nat :=
+  match edges.findIdx? (· == (n, m)) with
+  | some i => some i
+  | none => none
+
+/-- the original function lifted to states that carry the dispatcher variable, with the redirected edges pointing at
+their jump blocks -/
+def redirected (P : Prog σ) (d : Dispatcher) (edges : List (Nat × Nat)) : Prog (σ × Nat) where
+  exec n s := (P.exec n s.1, s.2)
+  next n s := match P.next n s.1 with
+    | none => none
+    | some m => match edgeIdx edges n m with
+      | some i => some (d.F i)
+      | none => some m
+
+/-- one flattening pass over the abstract CFG -/
+def flatten (P : Prog σ) (d : Dispatcher) (edges : List (Nat × Nat)) : Prog (σ × Nat) := d.prog (redirected P d edges)
+
+theorem edgeIdx_spec (edges : List (Nat × Nat)) (n m i : Nat) (h : edgeIdx edges n m = some i) :
+    i < edges.length ∧ edges.getD i (0, 0) = (n, m) := by
+  unfold edgeIdx at h
+  cases hf : edges.findIdx? (· == (n, m)) with
+  | none => rw [hf] at h; cases h
+  | some j =>
+    rw [hf] at h
+    cases h
+    have := List.findIdx?_eq_some_iff_getElem.mp hf
+    obtain ⟨hj, hp, _⟩ := this
+    refine ⟨hj, ?_⟩
+    simp only [List.getD_eq_getElem?_getD, List.getElem?_eq_getElem hj, Option.getD_some]
+    simpa using hp
+
+/-- **one flattening pass preserves every execution of the original function**: if the original goes from block `n`
+(state `s`) to block `k` (state `t`), the flattened function goes from `n` to `k` with the same function state, whatever
+the dispatcher variable holds - for any CFG, any set of redirected edges, any distinct keys -/
+theorem flatten_forward (P : Prog σ) (d : Dispatcher) (edges : List (Nat × Nat))
+    (nd : d.keys.Nodup) (hlen : edges.length = d.n)
+    (htgt : ∀ i, i < d.n → d.targets.getD i 0 = (edges.getD i (0, 0)).2)
+    (hclosed : ∀ n s m, n < d.base → P.next n s = some m → m < d.base)
+    (n k : Nat) (s t : σ) (hn : n < d.base) (h : Steps P n s k t) :
+    ∀ v, ∃ v', Steps (flatten P d edges) n (s, v) k (t, v') := by
+  induction h with
+  | refl n s => intro v; exact ⟨v, .refl _ _⟩
+  | @step n m k s t hnext _ ih =>
+    intro v
+    have hm : m < d.base := hclosed n _ m hn hnext
+    have hnF : ¬ (d.F 0 ≤ n ∧ n < d.F d.n) := by unfold Dispatcher.F; omega
+    have hnD : ¬ (d.D ≤ n ∧ n < d.F 0) := by unfold Dispatcher.D; omega
+    have hnD' : n ≠ d.D := by unfold Dispatcher.D; omega
+    have hnC : ¬ (d.C 0 ≤ n ∧ n < d.C d.n) := by unfold Dispatcher.C; omega
+    have ex : (flatten P d edges).exec n (s, v) = (P.exec n s, v) := by
+      simp [flatten, Dispatcher.prog, redirected, hnF, hnD]
+    cases he : edgeIdx edges n m with
+    | none =>
+      have nx : (flatten P d edges).next n ((flatten P d edges).exec n (s, v)) = some m := by
+        rw [ex]; simp [flatten, Dispatcher.prog, redirected, hnF, hnD', hnC, hnext, he]
+      obtain ⟨v', hv'⟩ := ih hm v
+      exact ⟨v', .step nx (by rw [ex]; exact hv')⟩
+    | some i =>
+      obtain ⟨hi, hedge⟩ := edgeIdx_spec edges n m i he
+      have hi' : i < d.n := by omega
+      have nx : (flatten P d edges).next n ((flatten P d edges).exec n (s, v)) = some (d.F i) := by
+        rw [ex]; simp [flatten, Dispatcher.prog, redirected, hnF, hnD', hnC, hnext, he]
+      have route := dispatcher_routes d (redirected P d edges) nd i hi' (P.exec n s) v
+      have htm : d.targets.getD i 0 = m := by rw [htgt i hi', hedge]
+      rw [htm] at route
+      obtain ⟨v', hv'⟩ := ih hm (d.keys.getD i 0)
+      refine ⟨v', .step nx ?_⟩
+      rw [ex]
+      exact steps_trans route hv'
+
+/-- and the function is entered through the dispatcher: with the variable at its zero value the real entry block is
+reached with the function state untouched -/
+theorem flatten_entry (P : Prog σ) (d : Dispatcher) (edges : List (Nat × Nat)) (h0 : 0 ∉ d.keys) (s : σ) :
+    Steps (flatten P d edges) d.D (s, 0) d.realEntry (s, 0) :=
+  dispatcher_entry d (redirected P d edges) h0 s
+
+/-- the function returns from block `k` in state `t` -/
+def Returns (P : Prog σ) (n : Nat) (s : σ) (t : σ) : Prop :=
+  ∃ k u, Steps P n s k u ∧ P.next k (P.exec k u) = none ∧ t = P.exec k u
+
+/-- **results are preserved**: whenever the original function, entered at its real entry block, returns in state `t`,
+so does the flattened one, entered through the dispatcher -/
+theorem flatten_returns (P : Prog σ) (d : Dispatcher) (edges : List (Nat × Nat))
+    (nd : d.keys.Nodup) (h0 : 0 ∉ d.keys) (hlen : edges.length = d.n)
+    (htgt : ∀ i, i < d.n → d.targets.getD i 0 = (edges.getD i (0, 0)).2)
+    (hclosed : ∀ n s m, n < d.base → P.next n s = some m → m < d.base)
+    (hentry : d.realEntry < d.base) (s t : σ) (h : Returns P d.realEntry s t) :
+    ∃ v, Returns (flatten P d edges) d.D (s, 0) (t, v) := by
+  obtain ⟨k, u, hsteps, hnone, ht⟩ := h
+  obtain ⟨v', hv'⟩ := flatten_forward P d edges nd hlen htgt hclosed d.realEntry k s u hentry hsteps 0
+  have hk : k < d.base := by
+    -- every block on the way is an original block
+    have : ∀ n s k u, Steps P n s k u → n < d.base → k < d.base := by
+      intro n s k u hs
+      induction hs with
+      | refl => intro h; exact h
+      | step hn _ ih => intro h; exact ih (hclosed _ _ _ h hn)
+    exact this _ _ _ _ hsteps hentry
+  have hnF : ¬ (d.F 0 ≤ k ∧ k < d.F d.n) := by unfold Dispatcher.F; omega
+  have hnD : ¬ (d.D ≤ k ∧ k < d.F 0) := by unfold Dispatcher.D; omega
+  have hnD' : k ≠ d.D := by unfold Dispatcher.D; omega
+  have hnC : ¬ (d.C 0 ≤ k ∧ k < d.C d.n) := by unfold Dispatcher.C; omega
+  have ex : (flatten P d edges).exec k (u, v') = (P.exec k u, v') := by
+    simp [flatten, Dispatcher.prog, redirected, hnF, hnD]
+  refine ⟨v', k, (u, v'), steps_trans (flatten_entry P d edges h0 s) hv', ?_, ?_⟩
+  · rw [ex]; simp [flatten, Dispatcher.prog, redirected, hnF, hnD', hnC, hnone]
+  · rw [ex, ht]
+
+
+/-- non-vacuity: a three-block loop (0: entry -> 1; 1: `if s < 3 goto 1 else goto 2`; 2: return) with its three edges
+redirected through a dispatcher with keys 2, 3, 1 still returns the state the original returns -/
+example : ∃ v, Returns (flatten (σ := Nat)
+      ⟨fun n s => if n = 1 then s + 1 else s, fun n s => if n = 0 then some 1 else if n = 1 then (if s < 3 then some 1 else some 2) else none⟩
+      { base := 10, keys := [2, 3, 1], targets := [1, 1, 2], realEntry := 0 } [(0, 1), (1, 1), (1, 2)]) 10 (0, 0) (3, v) := by
+  apply flatten_returns (σ := Nat) _ _ _ (by decide) (by decide) (by decide)
+  · intro i hi
+    have : i = 0 ∨ i = 1 ∨ i = 2 := by simp [Dispatcher.n] at hi; omega
+    rcases this with h | h | h <;> subst h <;> rfl
+  · intro n s m hn
+    simp only []
+    split
+    · intro h; cases h; decide
+    · split
+      · split <;> (intro h; cases h; decide)
+      · intro h; cases h
+  · decide
+  · exact ⟨2, 3, .step (m := 1) (by decide) (.step (m := 1) (by decide) (.step (m := 1) (by decide) (.step (m := 2) (by decide) (.refl _ _)))), by decide, by decide⟩
 
 end GV.Props.C11
